@@ -17,6 +17,7 @@ structure RcptInfo where
 /-- spelling forms: (non-ASCII, convertible, spelling class of the domain = connection key, IDN domain)
 a `u1@d0.example`  u `U1@D0.EXAMPLE`  i `u1@пример0.example`  x its A-label spelling  I `U1@пример0.example`
 U `U1@d0.example`  X `U1@XN--….EXAMPLE`  l `ю1@d0.example`  c/d `é1@d0.example` composed/decomposed  C `É1@d0.example`
+L `ю1@пример0.example`  z `ю1@xn--….example` (non-ASCII local part on the connections of i / x)
 t `u1@d0.example.`  T `U1@D0.EXAMPLE.`  j `u1@пример0.example.`  y `u1@xn--….example.` (absolute domain: the root dot is part of
 the domain as spelled — a connection key of its own — and stays in the address on the wire and in the status key) -/
 def formInfo : String → Option (Bool × Bool × Nat × Bool)
@@ -31,6 +32,8 @@ def formInfo : String → Option (Bool × Bool × Nat × Bool)
   | "c" => some (true, false, 0, false)
   | "d" => some (true, false, 0, false)
   | "C" => some (true, false, 0, false)
+  | "L" => some (true, false, 2, true)
+  | "z" => some (true, false, 3, true)
   | "t" => some (false, false, 5, false)
   | "T" => some (false, false, 6, false)
   | "j" => some (true, true, 7, true)
@@ -173,13 +176,24 @@ def parsePlan (tag : String) (tok : String) : Option Plan :=
     else some { stage := st, tgt := tg, all := false, routed := ((rt.splitOn "+").filterMap parseTok).map lookupKey }
   | _ => none
 
+/-- `<srv>[n]`: srv `0` no SMTPUTF8 at the next hop, `1` offered, `2` offered and RFC 6531 §3.4 enforced; `n` = the
+message does not carry the SMTPUTF8 flag. -/
+def parseCaps : String → Option Caps
+  | "0" => some { srvUtf8 := false }
+  | "1" => some { srvUtf8 := true }
+  | "2" => some { srvUtf8 := true, strict := true }
+  | "0n" => some { srvUtf8 := false, msgUtf8 := false }
+  | "1n" => some { srvUtf8 := true, msgUtf8 := false }
+  | "2n" => some { srvUtf8 := true, strict := true, msgUtf8 := false }
+  | _ => none
+
 def handle : List String → String
   | ["remote", utf8, txs] =>
-    match (txs.splitOn ";").mapM parseTx with
-    | some txs =>
-      let obs := runHistory (utf8 == "1") [] (txs.map (·.1))
+    match parseCaps utf8, (txs.splitOn ";").mapM parseTx with
+    | some caps, some txs =>
+      let obs := runHistoryCaps caps [] (txs.map (·.1))
       " | ".intercalate ((obs.zip (txs.map (·.2))).map (fun p => showObs p.1 p.2))
-    | none => "bad-op"
+    | _, _ => "bad-op"
   | ["lmtp", acc, sts, _spec] =>
     -- accepted ids "1,2,3" (or "-"), server statuses "o,f" (or "-")
     let accepted := if acc == "-" then some [] else (acc.splitOn ",").mapM String.toNat?
